@@ -94,6 +94,9 @@ def setup():
 
 def check(prop, tier, seed):
     t0 = time.time()
+    stale = os.path.join(common.REPLAYS, "%s-violation.json" % prop)
+    if os.path.exists(stale):
+        os.remove(stale)
     ctx = Ctx(prop, tier, seed)
     mod = importlib.import_module("props." + prop)
     proof_problems = []
